@@ -34,6 +34,7 @@ def run(ctx, obs):
     sweeps.run(ctx, obs, 'C13')
     for q, params in PARSERS:
         mask_alignment(ctx, obs, q, params)
+        row_coverage(ctx, obs, q, params)
     wrapper(ctx, obs)
     for q, tp in (('rdm.combine._mean', ('vectors',)), ('rdm.combine._ss', ('vectors',)), ('rdm.combine._scale', ('vectors',)),
                   ('rdm.combine._rescale', ('dissim',))):
@@ -97,6 +98,13 @@ def _equality_guard(f, inl):
     for s in ast.walk(f.node):
         if isinstance(s, ast.If) and any(isinstance(x, ast.Raise) for x in s.body):
             t = inl.inline(s.test)
+            # a position check that only runs when some other condition on the inputs holds is no check for the inputs that fail
+            # that condition: stacks with different numbers of RDMs are legal (compare() returns an n1 x n2 matrix), so a conjunct
+            # comparing the full mask shapes switches the check off for them
+            if isinstance(t, ast.BoolOp) and isinstance(t.op, ast.And) and any(
+                    isinstance(c, ast.Compare) and any(isinstance(x, ast.Attribute) and x.attr == 'shape' and not _is_indexed(c, x)
+                                                       for x in ast.walk(c)) for c in t.values):
+                continue
             for n in ast.walk(t):
                 cmp_args = None
                 if isinstance(n, ast.Call) and _leaf(n.func) in ('array_equal', 'array_equiv', 'allclose') and len(n.args) >= 2:
@@ -113,6 +121,11 @@ def _equality_guard(f, inl):
                 if (_isnan_of(a, 'SRC0') and _isnan_of(b, 'SRC1')) or (_isnan_of(a, 'SRC1') and _isnan_of(b, 'SRC0')):
                     return ast.unparse(n)[:90]
     return None
+
+
+def _is_indexed(root, attr_node) -> bool:
+    """x.shape[k] (one axis) rather than the whole x.shape"""
+    return any(isinstance(n, ast.Subscript) and n.value is attr_node for n in ast.walk(root))
 
 
 def wrapper(ctx, obs, rule='MASK'):
@@ -271,3 +284,67 @@ def _phi_alternatives(e: ast.expr, limit=16):
             out += _phi_alternatives(a, limit)
         return out[:limit]
     return [e]
+
+
+def row_coverage(ctx, obs, q, params, rule='MASK-rows'):
+    """The parsers reshape `x[~isnan(x)]` to (n_rdm, -1) and return one mask for the whole comparison, which is only meaningful if
+    EVERY row of both stacks lacks the same entries.  So for each input some raising guard must test the input's full 2-D mask
+    (not just row 0) element-wise against the reference mask; a test of row 0 only lets a later RDM with other missing entries
+    (same count) through, compared entry-shifted."""
+    prog = ctx.prog
+    f = prog.func(q)
+    r = ctx.dep.result(q)
+    inl = Inliner(r, None, params)
+    covered = {0: None, 1: None}
+    for s in ast.walk(f.node):
+        if not (isinstance(s, ast.If) and any(isinstance(x, ast.Raise) for x in s.body)):
+            continue
+        t = inl.inline(s.test)
+        if isinstance(t, ast.BoolOp) and isinstance(t.op, ast.And) and any(
+                isinstance(c, ast.Compare) and any(isinstance(x, ast.Attribute) and x.attr == 'shape' and not _is_indexed(c, x)
+                                                   for x in ast.walk(c)) for c in t.values):
+            continue
+        for n in ast.walk(t):
+            args = None
+            if isinstance(n, ast.Call) and _leaf(n.func) in ('array_equal', 'array_equiv') and len(n.args) >= 2:
+                args = n.args[:2]
+            elif isinstance(n, ast.Compare) and len(n.comparators) == 1 and isinstance(n.ops[0], (ast.Eq, ast.NotEq)):
+                args = [n.left, n.comparators[0]]
+            if not args:
+                continue
+            if any(isinstance(x, ast.Attribute) and x.attr in ('shape', 'size') for y in args for x in ast.walk(y)):
+                continue
+            for k in (0, 1):
+                src = f'SRC{k}'
+                for y in args:
+                    if _full_mask_of(y, src):
+                        covered[k] = ast.unparse(n)[:80]
+    for k in (0, 1):
+        pname = params[k] if k < len(params) else f'input {k + 1}'
+        obs.check(covered[k] is not None, rule, q, f'every RDM of `{pname}` is checked for missing entries at the reference positions',
+                  f'no raising guard compares the full mask of `{pname}` (only row 0 / counts are tested): a stack whose RDMs miss '
+                  f'different entries (equally many) is reshaped and compared entry-shifted', f'guard `{covered[k]}`', where(prog, f, f.node))
+
+
+def _full_mask_of(e, src) -> bool:
+    """e contains isnan/isfinite applied to the whole array `src` (not to a constant row of it)"""
+    for n in ast.walk(e):
+        if isinstance(n, ast.Call) and _leaf(n.func) in ('isnan', 'isfinite') and n.args:
+            a = n.args[0]
+            mentions_src = any(isinstance(x, ast.Name) and x.id == src for x in ast.walk(a))
+            row_inside = any(isinstance(x, ast.Subscript) and isinstance(x.slice, ast.Constant) and isinstance(x.slice.value, int)
+                             for x in ast.walk(a))
+            if mentions_src and not row_inside:
+                # the mask itself must not be reduced to one row afterwards: x = isnan(src)[0]
+                if not any(isinstance(p, ast.Subscript) and p.value is n and isinstance(p.slice, ast.Constant) for p in ast.walk(e)) \
+                        and not _row_of_unary(e, n):
+                    return True
+    return False
+
+
+def _row_of_unary(e, call) -> bool:
+    """(~isnan(src))[0]"""
+    for p in ast.walk(e):
+        if isinstance(p, ast.Subscript) and isinstance(p.slice, ast.Constant) and isinstance(p.value, ast.UnaryOp) and p.value.operand is call:
+            return True
+    return False
